@@ -169,6 +169,9 @@ class EvalMixin:
     def eq(self, st, a, b):
         """python == as a formula"""
         ka, kb = unopt(a.k), unopt(b.k)
+        if a.k == BOOL and b.k == BOOL:
+            # compare as formulas (a quantifier must not end up inside a VBool(...) term)
+            return simp(bval(a.t)) == simp(bval(b.t))
         if ka.head in ("tuple", "vtuple") and kb.head in ("tuple", "vtuple"):
             return a.t == b.t
         if ka.head in ("list", "vtuple") and kb.head in ("list", "vtuple"):
